@@ -635,10 +635,15 @@ def evaluate(unit, recipe, via="class", encode_side=True):
         if lens != (len(ref), len(ref) - hlen):
             return Failure("encode", kind + ".packet_len", "packet_len/pdu_data_field_len", lens, (len(ref), len(ref) - hlen))
     subject = kind + ".unpack" if via == "class" else f"PduFactory.from_raw({kind})"
+    # the decoder is handed a mutable receive buffer which the caller re-uses (overwrites) as soon as the call returns:
+    # a decoded PDU is a value, it must not keep looking into the caller's buffer
+    buf = bytearray(ref)
     try:
-        u = unit.cls().unpack(ref) if via == "class" else L.PduFactory.from_raw(ref)
+        u = unit.cls().unpack(buf) if via == "class" else L.PduFactory.from_raw(buf)
     except Exception as e:
         return Failure("decode", subject, "refused", repr(e), None)
+    for i in range(len(buf)):
+        buf[i] ^= 0xFF
     if type(u) is not unit.cls():
         return Failure("decode", subject, "wrong-class", type(u).__name__, kind)
     _LAST["decoded"] = (subject, u)
